@@ -379,6 +379,12 @@ class Command:
         pass
 
 
+def string_to_argv(text):
+    """gdb's own splitting of a command's argument string (buildargv): blanks separate, quotes and backslashes are consumed"""
+    import shlex
+    return shlex.split(text)
+
+
 class Parameter:
     def __init__(self, *a, **k):
         self.value = None
